@@ -106,6 +106,10 @@ func checkCmd(args []string) int {
 		return 2
 	}
 	loadS := time.Since(t0).Seconds()
+	nativeSkipOptional = P.DroppedOptional != ""
+	if P.DroppedOptional != "" {
+		fmt.Printf("NOTE optional harness files dropped (they no longer compile against the working tree): %s\n", strings.SplitN(P.DroppedOptional, "\n", 3)[1])
+	}
 	known := loadKnown()
 	for _, k := range known {
 		if k.Property == id && !k.Fixed {
@@ -321,6 +325,9 @@ type nativeResult struct {
 var resRe = regexp.MustCompile(`^REPLAY-RESULT (\d+) (\S+) ?(.*)$`)
 var obsRe = regexp.MustCompile(`^REPLAY-OBS (\d+) ([^=]+)=(.*)$`)
 
+// nativeSkipOptional mirrors Program.DroppedOptional for the native builds of this run.
+var nativeSkipOptional bool
+
 // runNative compiles the harness packages natively (go test -overlay) and runs the entries.
 func runNative(repo, harnessDir string, entries []replayEntry, file string) ([]nativeResult, error) {
 	os.MkdirAll(filepath.Dir(file), 0o755)
@@ -332,7 +339,7 @@ func runNative(repo, harnessDir string, entries []replayEntry, file string) ([]n
 	for i, e := range entries {
 		byPkg[e.Pkg] = append(byPkg[e.Pkg], i)
 	}
-	ovFile, err := writeNativeOverlay(repo, harnessDir, filepath.Dir(file))
+	ovFile, err := writeNativeOverlay(repo, harnessDir, filepath.Dir(file), nativeSkipOptional)
 	if err != nil {
 		return nil, err
 	}
@@ -397,7 +404,7 @@ func runNative(repo, harnessDir string, entries []replayEntry, file string) ([]n
 
 // writeNativeOverlay maps every harness file (incl. native-only ones) plus a generated
 // replay test per harness package into the repository tree.
-func writeNativeOverlay(repo, harnessDir, workDir string) (string, error) {
+func writeNativeOverlay(repo, harnessDir, workDir string, skipOptional bool) (string, error) {
 	repl := map[string]string{}
 	pkgDirs := map[string]string{} // virtual dir -> package name
 	err := filepath.Walk(harnessDir, func(p string, info os.FileInfo, err error) error {
@@ -405,6 +412,11 @@ func writeNativeOverlay(repo, harnessDir, workDir string) (string, error) {
 			return err
 		}
 		rel, _ := filepath.Rel(harnessDir, p)
+		if skipOptional {
+			if b, err := os.ReadFile(p); err == nil && symex.IsOptionalHarness(b) {
+				return nil
+			}
+		}
 		var virt string
 		if strings.HasPrefix(rel, "_inpkg/") {
 			sub := strings.TrimPrefix(rel, "_inpkg/")
